@@ -40,6 +40,8 @@ Definition op_pq_reorder (v : val) : val :=
 
 Definition op_pq_inv (v : val) : val := ebool (pq_inv (dlist dnat (dnth 0 v)) (d_sets (dnth 1 v))).
 
+Definition op_pq_complete_chk (v : val) : val := ebool (pq_complete_chk (dlist dnat (dnth 0 v)) (d_sets (dnth 1 v))).
+
 Definition dec2 (f : list N -> list (list N) -> bool) (v : val) : val :=
   ebool (f (d_alts (dnth 0 v)) (d_ballots (dnth 1 v))).
 Definition chk_alt (f : list N -> list (list N) -> list N -> bool) (v : val) : val :=
@@ -62,7 +64,7 @@ Definition e_parts (o : option (list (list N))) : val := eoption (elist (elist e
 Definition ops : optable :=
   [ ("c05.c1p_decide", op_c1p_decide); ("c05.c1p_check", op_c1p_check);
     ("c05.c1p_core", op_c1p_core);
-    ("c05.pq_reorder", op_pq_reorder); ("c05.pq_inv", op_pq_inv);
+    ("c05.pq_reorder", op_pq_reorder); ("c05.pq_inv", op_pq_inv); ("c05.pq_complete_chk", op_pq_complete_chk);
     ("c05.sets_decide", op_sets_decide); ("c05.sets_check", op_sets_check);
     ("c05.ci_decide", dec2 ci_decide);   ("c05.ci_check", chk_alt ci_check);
     ("c05.cei_decide", dec2 cei_decide); ("c05.cei_check", chk_alt cei_check);
